@@ -101,6 +101,10 @@ def programs(draw):
             if bad == "label":
                 v = sorted(ty["labels"])[0]
                 ops.append((t, ["mlabel", mt, v, ty["labels"][v] + " (other)"]))
+            if draw(st.booleans()):
+                # the conflicting definition is not the last one of that thread: a further, valid type follows
+                extra_t = [x for x in (98, 97, 3, 4) if x not in types][0]
+                ops.append((t, ["mtype", extra_t, draw(st.integers(0, 1)), "one more type"]))
             conflict_done = True
     if bad == "range":
         ops.append((0, ["mtype", draw(st.sampled_from([-1, 100, 1000])), 0, "t"]))
